@@ -26,7 +26,15 @@ from typing import Callable, Optional, Union
 from zoneinfo import ZoneInfo
 
 import dateutil.rrule
-from icalendar.cal import Calendar, Component, component_factory
+from icalendar.cal import Calendar, Component
+
+try:
+    # icalendar >= 6: component_factory is a module
+    from icalendar.cal import ComponentFactory
+except ImportError:
+    from icalendar.cal import component_factory
+else:
+    component_factory = ComponentFactory()
 from icalendar.prop import TypesFactory, vCategory, vDatetime, vDDDTypes, vText
 
 from xandikos.store import File, Filter, InvalidFileContents
